@@ -312,7 +312,8 @@ def run(case, ctx):
         for s in succ:
             if len(s) == 1:
                 F2 = offs[s[0]][0]
-                if F2 is not chosenF and issubclass(F2, chosenF):
+                # (STRICTLY more specific: ABC registrations can make two classes subclasses of each other)
+                if F2 is not chosenF and issubclass(F2, chosenF) and not issubclass(chosenF, F2):
                     ctx.fail("adapt/less-specific", "offer %r (for %s) chosen although offer %r for the more specific %s succeeds: %s"
                              % (ch, chosenF.__name__, s, F2.__name__, desc))
     if mode == "supports" and other is not adaptee:
